@@ -231,12 +231,39 @@ func c16Group(a c16Asg, styles []c16Style) (string, string) {
 	return id0, ""
 }
 
+// c16Regress: saved pairs of messages with the attribution the statement fixes for them.
+func c16Regress(c regressCase) string {
+	if c.S("kind") != "pair" {
+		return "skip: kind " + c.S("kind")
+	}
+	a, errA := c16ProductID(c.S("a"))
+	switch c.S("expect") {
+	case "none":
+		if errA == nil {
+			return fmt.Sprintf("a message lacking a tag belongs to no dialog, but got the identity %q", a)
+		}
+		return ""
+	}
+	b, errB := c16ProductID(c.S("b"))
+	if errA != nil || errB != nil {
+		return fmt.Sprintf("GetDialog failed: %v / %v", errA, errB)
+	}
+	if c.S("expect") == "same" && a != b {
+		return fmt.Sprintf("same dialog, different identity: %q vs %q", a, b)
+	}
+	if c.S("expect") == "different" && a == b {
+		return fmt.Sprintf("different dialogs, same identity %q", a)
+	}
+	return ""
+}
+
 func TestC16(t *testing.T) {
 	V.Rule("unit: all assignments (Call-ID x 2 tags x 2 URIs) over small alphabets, each rendered as request/response, both orientations, with decoration styles; product GetDialog ids grouped and compared with the harness's canonical key both ways (same key => same id; definitely different key => different id); plus messages lacking a tag; plus rapid-generated long identifiers with single-component edits. non-trivial = equal URIs or equal tags on both sides, or '-' inside an identifier, or a single-component edit; distinct by assignment")
 	V.Assume("scheme-only, default-port-only and non-SIP-parameter-only differences are don't-cares for the 'different dialog' direction")
 	V.Require("equal URIs both sides", "equal tags both sides", "dash in identifier", "missing tag")
 
 	styles := c16Styles(V.Thorough())
+	V.Regress(t, c16Regress)
 	t.Run("exhaustive", func(t *testing.T) {
 		byID := map[string]c16Asg{}
 		n := 0
